@@ -82,6 +82,43 @@ def run_inflight(params, ch):
         s.finish()
 
 
+def run_abandoned(params, ch):
+    """A streaming_shell generator that the caller stops consuming after k items: every WRTE that was delivered must have been
+    acknowledged exactly once, and later operations must work."""
+    cfg = scen.ops_cfg('bytes', 4096, params['clse'], params['family'])
+    s = Session(ch, cfg, twin=params['twin'])
+    try:
+        s.op(('connect',))
+        k = params['k']
+        if params['twin'] == 'sync':
+            def body(d):
+                g = d.streaming_shell('c', decode=False)
+                got = [next(g) for _ in range(k)]
+                g.close()
+                return got
+        else:
+            async def body(d):
+                g = d.streaming_shell('c', decode=False)
+                got = [await g.__anext__() for _ in range(k)]
+                await g.aclose()
+                return got
+        r = s.run(body)
+        mon, streams = [], []
+        from .. import monitor
+        mon, streams = monitor.check(s.env.events, completed=False)
+        viol = [{'msg': 'stream monitor %s: %s' % m} for m in mon] + [{'msg': '%s: %s' % i} for i in s.env.issues]
+        if r != ('ok', scen.chunk(scen.SHELL_OUT, 'bytes')[:k]):
+            viol.append({'msg': 'first %d items of streaming_shell were %r' % (k, r)})
+        if streams and streams[0].h_okay != k:
+            viol.append({'msg': '%d device WRTEs were delivered to the caller but the host sent %d OKAYs on that stream' % (k, streams[0].h_okay)})
+        r2 = s.op(scen.op_tuple('stat'))
+        if r2 != scen.op_expected('stat', cfg):
+            viol.append({'msg': 'stat after the abandoned generator returned %r' % (r2,)})
+        return {'outcome': (r[0], k), 'viol': viol, 'nontrivial': tuple(sorted((kk, str(v)) for kk, v in params.items())), 'sample': dict(params, result=r[0]), 'trans': len(s.env.events)}
+    finally:
+        s.finish()
+
+
 def run_interleaved(params, ch):
     """Two live streams on one thread: a suspended streaming_shell whose packets get parked while another operation runs."""
     from . import c01
@@ -123,8 +160,11 @@ def parts(tier):
            for k in (0, 1, 2, 5)]
     inflight = Part('close-with-data-in-flight', sc4, run_inflight, {'dev-order': None}, what='host-initiated CLSE while a device WRTE is still in flight (pull into a sink failing at its k-th write), then another operation',
                     bound='%d cases' % len(sc4))
-    sc5 = [{'twin': t, 'api': a, 'decode': False, 'clse': c} for t in ('sync', 'async') for a in ('shell', 'exec_out', 'streaming_shell') for c in ('after-ack', 'eager')]
+    sc5 = [{'twin': t, 'api': a, 'decode': False, 'clse': c, 'nother': n, 'family': f} for t in ('sync', 'async') for a in ('shell', 'exec_out', 'streaming_shell') for c in ('after-ack', 'eager')
+           for n in (3, 1) for f in ('small', 'mirror')]
     inter = Part('interleaved-streams', sc5, run_interleaved, {'dev-order': None}, what='a suspended stream whose packets are parked and later delivered from the store: each delivered WRTE must still be acknowledged once',
                  bound='%d cases x all wire orders' % len(sc5))
-    return [early, okord, inflight, inter, Part('op-sequences', sc, run_seq, {'dev-order': None}, what='operation sequences of length <=%d x device parameters' % k,
+    sc6 = [{'twin': t, 'k': k, 'clse': c, 'family': f} for t in ('sync', 'async') for k in (1, 2, 5) for c in ('after-ack', 'eager') for f in ('small', 'extreme')]
+    aband = Part('abandoned-generator', sc6, run_abandoned, {'dev-order': None}, what='streaming_shell abandoned after k items: delivered WRTEs == host OKAYs', bound='%d cases' % len(sc6), min_outcomes=1)
+    return [early, okord, inflight, inter, aband, Part('op-sequences', sc, run_seq, {'dev-order': None}, what='operation sequences of length <=%d x device parameters' % k,
                       bound='length <=%d%s' % (k, '; length-3 sequences at maxdata 4096 only' if k == 3 else ''))]
